@@ -203,3 +203,38 @@ Print Assumptions C17_boundary_last.
 Print Assumptions C17_boundary_last_cr.
 Print Assumptions C17_boundary_last_exact.
 Print Assumptions C17_boundary_last_cr_exact.
+
+(* Teletext in transport streams (second audit, N1).  The reader is delegated to the astits demuxer, which detects the packet
+   size from a single Read of 193 bytes and re-synchronises with single Reads; what the library itself contributes since
+   repo b00351a is the wrapper teletextFullReader between the caller's io.Reader and the demuxer.  Model/TtxFull.v models
+   exactly that wrapper (io.ReadFull with io.ErrUnexpectedEOF turned into nil) over the schedule model of Kit/Scan.v: a
+   stream (tf_of data end counts w) delivers data under the read sizes counts (0 allowed, then the rest), ends with
+   end-of-file or fails at an offset, and hands its end signal over together with the last bytes (w = true) or on a Read
+   of its own.  tf_reads s [n1; n2; ...] is what the successive Reads of the demuxer with buffers of n1, n2, ... bytes
+   return: (bytes, nil / EOF / failure).  Statement: for EVERY schedule it is the one-shot sequence tf_oneshot (a function
+   of the data and the request sizes alone): every request is filled while bytes remain, then the rest, then (no byte,
+   EOF).  So whatever the demuxer computes from its Reads is schedule-free.  NOT modelled: the demuxer itself (contract:
+   its result is a function of what its Reads return), the *bufio.Reader pass-through (the demuxer peeks into it; covered
+   by the harness schedule suite on the implementation), Seek (the seekable variant reads through the same Read; the
+   correspondence suite ttxfull runs the real wrapper, both variants, against tf_reads and against tf_oneshot). *)
+From Astisub Require Import Model.TtxFull Proofs.TtxFullProofs.
+Theorem C17_ttx_full_reads : forall data counts w ns, tf_reads (tf_of data SEof counts w) ns = Some (tf_oneshot data TfEOF ns).
+Proof. exact ttx_full_reads. Qed.
+Print Assumptions C17_ttx_full_reads.
+Theorem C17_ttx_full_reads_schedule_free : forall data c1 w1 c2 w2 ns,
+  tf_reads (tf_of data SEof c1 w1) ns = tf_reads (tf_of data SEof c2 w2) ns.
+Proof. exact ttx_full_reads_schedule_free. Qed.
+Print Assumptions C17_ttx_full_reads_schedule_free.
+(* the one-shot sequence while bytes remain: request i returns exactly ni bytes and no error, and the buffers put together
+   are the stream's bytes *)
+Theorem C17_ttx_oneshot_filled : forall ns avail e, (list_sum ns <= length avail)%nat ->
+  concat (map fst (tf_oneshot avail e ns)) = firstn (list_sum ns) avail /\ Forall (fun x => snd x = None) (tf_oneshot avail e ns) /\
+  map (fun x => length (fst x)) (tf_oneshot avail e ns) = ns.
+Proof. exact tf_oneshot_bytes. Qed.
+Print Assumptions C17_ttx_oneshot_filled.
+(* non-vacuity: 7 bytes delivered 1 + 0 + 2 + rest with EOF on the last bytes, the demuxer asks for 3, 3, 3, 3 *)
+Example C17_ttx_full_example :
+  tf_reads (tf_of [1;2;3;4;5;6;7]%N SEof [1;0;2]%nat true) [3;3;3;3]%nat =
+  Some [([1;2;3]%N, None); ([4;5;6]%N, None); ([7]%N, None); ([], Some TfEOF)].
+Proof. reflexivity. Qed.
+Print Assumptions C17_ttx_full_example.
